@@ -640,6 +640,19 @@ pub fn run(tier: Tier, seed: u64) -> ! {
             check_dictionary(&mut c, &vals);
         }
     }
+    // directed adjacency cells: a frozen (compressed) chunk holding exactly one entry, with
+    // destination 0 / a large id, edge id 0 / large
+    for (dst, eid) in [(0u64, 0u64), (0, 5), (7, 0), (u64::MAX >> 1, 3), (1, u64::MAX >> 1)] {
+        let mut c = Ctx { rep: &mut rep, class: format!("adj|single_entry|dst{}|edge{}", if dst == 0 { "=0" } else { ">0" }, if eid == 0 { "=0" } else { ">0" }) };
+        c.run("adjacency_single", || {
+            let adj = ChunkedAdjacency::new();
+            adj.add_edge(NodeId::new(3), NodeId::new(dst), EdgeId::new(eid));
+            adj.compact();
+            adj.freeze_all();
+            let got: Vec<(u64, u64)> = adj.edges_from(NodeId::new(3)).into_iter().map(|(d, e)| (d.as_u64(), e.as_u64())).collect();
+            mism("edges_from_after_freeze_all", &[(dst, eid)], &got)
+        });
+    }
     // adjacency and property columns
     let reps = tier.pick(30, 600);
     for k in 0..reps {
